@@ -69,8 +69,15 @@ func init() {
 		for i := 0; i < stt.NumFields(); i++ {
 			if stt.Field(i).Name() == "FullBox" {
 				fb := st[i].(Struct)
-				fb[0] = head[0]
-				fb[1] = Array{head[1], head[2], head[3]}
+				fbt := stt.Field(i).Type().Underlying().(*types.Struct)
+				for k := 0; k < fbt.NumFields(); k++ {
+					switch fbt.Field(k).Name() {
+					case "Version":
+						fb[k] = head[0]
+					case "Flags":
+						fb[k] = Array{head[1], head[2], head[3]}
+					}
+				}
 			}
 		}
 		if v0 {
